@@ -390,6 +390,9 @@ def locals_for(scope, syms, ch, tag):
         s.recs = getattr(s, "recs", []) + [rn]
     if ch.bool(1, 2) and not getattr(s, "no_objs", False):
         on = f"obj_{tag}"
+        if "intrinsic_named_objects" not in getattr(s, "excl", ()) and ch.bool(1, 3):
+            # an object named like an intrinsic procedure / a statement keyword (Fortran has no reserved words)
+            on = ch.choice(["count", "data", "result", "index", "time"])
         scope["decls"].append(_var(on, {"base": "type", "proto": "outer_t"}))
         s.objs = s.objs + [on]
     aa = f"dyn_{tag}"
